@@ -5,10 +5,7 @@ import chainindexcommon as cc
 from verifkit import Infra
 
 
-def run(ctx):
-    if ctx.replay:
-        return cc.replay(ctx)
-    q = ctx.quick
+def design_level(ctx, q):
     # 1. design level: ChainIndex.tla, exhaustive.  (a) block trees with readers started at any known block, all
     #    interleavings of AddBlock (best back and forth) / StartReader / Read; (b) block trees carrying transactions
     #    (the same tx re-included on siblings, twice on a chain) for the by-id queries
@@ -34,6 +31,15 @@ def run(ctx):
         if r.invariant != inv:
             raise Infra("the bounded model does not reach the shape %s: %s" % (inv, r.invariant or r.error or "no violation"))
 
+
+
+def run(ctx):
+    if ctx.replay:
+        return cc.replay(ctx)
+    q = ctx.quick
+    if os.environ.get("VERIF_PART") != "demo":
+        design_level(ctx, q)
+
     # With hooks/subscriptions.patch in the tree the subscription readers are also driven Read by Read (AddBlocks between
     # the individual reads of block / beat / beat2 readers that share the handler's caches)
     hooked = os.path.exists(os.path.join(ctx.repo, "api/subscriptions/verif_hooks.go"))
@@ -42,17 +48,18 @@ def run(ctx):
     ctx.cov["subscription_readers_stepped"] = hooked
 
     # 2. binding demonstration on a recorded tree run
-    runs, stats, how = cc.record(ctx, "chainindex", ["-mode", "tree", "-blocks", "12"] + step, "demo", 1, seed_offset=977, tags=tags)
-    if cc.validate_runs(ctx, runs, stats, "demo", how) != [0]:
-        cc.stalled(ctx)
-        return
-    cc.invariant_demo(ctx, runs[0], "c14")
-    cc.binding_demo(ctx, runs[0], "c14", [
+    pool = cc.DemoPool(ctx, "chainindex", ["-mode", "tree", "-blocks", "12"] + step, "demo", tags=tags)
+    cc.invariant_demo(ctx, pool, "c14")
+    cc.binding_demo(ctx, pool, "c14", [
         ("bynum-swapped", cc.mut_bynum), ("exclude-fork-block-dropped", cc.mut_exclude),
         ("obsolete-flag-cleared", cc.mut_obsolete), ("subscription-obsolete-flag-cleared", cc.mut_sub_obsolete),
         ("lookup-from-wrong-branch", cc.mut_lookup_branch),
         ("add-deleted", cc.mut_delete("Add")), ("read-deleted", cc.mut_delete_read),
         ("reopen-deleted-best-moved", cc.mut_reopen)])
+    cc.stalled(ctx)
+    if os.environ.get("VERIF_PART") == "demo":       # development aid: only the demonstrations
+        ctx.cov.update(evaluations=len(pool.runs), distinct_nontrivial=0, rule="demonstrations only")
+        return
 
     # 3. implementation -> model: random trees on a real Repository, every query from every head after every AddBlock,
     #    readers from every position (above best, on abandoned siblings); real websocket subscriptions of every kind
